@@ -29,6 +29,8 @@ import (
 	"strconv"
 	"strings"
 	"sync"
+	"sync/atomic"
+	"time"
 
 	"git.metabarcoding.org/obitools/obitools4/obitools4/pkg/obikmer"
 	"git.metabarcoding.org/obitools/obitools4/obitools4/pkg/obiseq"
@@ -213,14 +215,42 @@ func c15Index(k int, db *c15DB) (pairs [][]int, raw map[int]string, problem stri
 	return pairs, raw, ""
 }
 
-// c15Assign runs Identify on fresh references (the indexes are built lazily by Identify itself).
+// c15Assign runs Identify on fresh references (the indexes are built lazily by Identify itself).  Identify
+// loops for ever on a reference whose index is empty: the call is made on its own goroutine and given up
+// after a while (the spinning goroutine is lost; after three of them Identify is no longer called).
+var c15Hangs int32
+
 func c15Assign(q []byte, db *c15DB) (taxid int, problem string) {
+	if atomic.LoadInt32(&c15Hangs) >= 3 {
+		return 0, "hang: Identify not called any more after three calls that did not return"
+	}
 	seq := obiseq.NewBioSequence("query", append([]byte(nil), q...), "")
-	problem = c15Guard(func() {
-		out := obitag.Identify(seq, db.refs, db.counts, db.taxa, db.taxo, false)
-		taxid = out.Taxid()
-	})
-	return
+	type answer struct {
+		taxid   int
+		problem string
+	}
+	done := make(chan answer, 1)
+	go func() {
+		var a answer
+		sent := false
+		defer func() {
+			if !sent { // a captured log.Fatal ends the goroutine (runtime.Goexit)
+				done <- answer{0, "fatal: " + strings.Join(fatalMessages(), "; ")}
+			}
+		}()
+		defer func() { sent = true; done <- a }()
+		a.problem = c15Guard(func() {
+			out := obitag.Identify(seq, db.refs, db.counts, db.taxa, db.taxo, false)
+			a.taxid = out.Taxid()
+		})
+	}()
+	select {
+	case a := <-done:
+		return a.taxid, a.problem
+	case <-time.After(20 * time.Second):
+		atomic.AddInt32(&c15Hangs, 1)
+		return 0, "hang: Identify did not return within 20 s"
+	}
 }
 
 // c15LookupIn reads a decoded index the way Identify does: entry of the largest recorded distance <= d,
@@ -242,6 +272,28 @@ func c15LookupIn(pairs [][]int, d int) int {
 }
 
 // ------------------------------------------------------------------------------------------ replay
+
+// c15NoteFieldOrder: outside the listed property (DESIGN 9, item 18) - IndexSequence writes "taxid@name@rank",
+// obitag.MatchDistanceIndex documents and parses "taxid@rank@name".  Reported once as a note, never a verdict.
+var c15FieldOrderOnce sync.Once
+
+func c15NoteFieldOrder(env *Env, raw map[int]string) {
+	v, ok := raw[0]
+	if !ok {
+		return
+	}
+	c15FieldOrderOnce.Do(func() {
+		var id int
+		var rank, name string
+		if c15Guard(func() { id, rank, name = obitag.MatchDistanceIndex(0, raw) }) != "" {
+			return
+		}
+		if rank == "tx"+strconv.Itoa(id) && name == "rk"+strconv.Itoa(id) {
+			env.emit(map[string]any{"note": fmt.Sprintf("outside C15 (DESIGN 9 item 18): IndexSequence wrote %q (taxid@name@rank); "+
+				"obitag.MatchDistanceIndex parses taxid@rank@name and returned rank=%q name=%q (its callers ignore both)", v, rank, name)})
+		}
+	})
+}
 
 type c15Case struct {
 	Q        []string   `json:"q"`
@@ -376,6 +428,7 @@ func c15Replay(env *Env) {
 					fail("C15.index.crash", fmt.Sprintf("IndexSequence(reference %d, %s): %s", k+1, ord, problem))
 					continue
 				}
+				c15NoteFieldOrder(env, raw)
 				lcaw := c.Lcaw[k]
 				okEntries, okLookup := true, true
 				for _, p := range pairs {
